@@ -29,7 +29,9 @@ notes=open(os.path.join(d,"notes.md")).read() if os.path.exists(os.path.join(d,"
 title=notes.splitlines()[0].lstrip("# ").strip() if notes else id_
 meta={"id":id_,"property":pid,"title":title,
       "origin":"written by a fresh sub-agent that was given only the property text and a scratch worktree; confirmed here: the demo passes on the clean tree, fails with the patch, and the repository's own suite stays green with the patch",
-      "needs_to_manifest":next((l.strip("- ").strip() for l in notes.splitlines() if l.lower().startswith("- to manifest")), ""),
+      "needs_to_manifest":next((l.strip("- ").strip() for l in notes.splitlines() if l.lower().startswith("- to manifest")), "")
+                          or next((" ".join(p.split())[:600] for p in re.split(r"\n\s*\n", notes)
+                                   if re.search(r"needs?( |$)|to manifest|manifest", p, re.I) and p.strip() and not p.startswith("#") and p.strip() != title), ""),
       "patch_rebased_onto_fixed_tree": id_ in ("C07-m1","C02-m2","C08-m1","C19-m1","C17-m2","C15-m4","C16-m3"),
       "how_to_run":"tools/try_mutant.sh <check id> /verif/seeded/%s/patch.diff  (applies to /repo, runs the check, undoes the change)"%id_,
       "verdicts":verd,
